@@ -63,7 +63,8 @@ Theorem C06_score_commutes_with_selection : forall docs bs ix avoid keys v ts id
 Proof. exact C06_score_commutes. Qed.
 Print Assumptions C06_score_commutes_with_selection.
 
-(* NOT proved: range-restricted tf on views, phrases with adjacent repeats, element access. *)
+(* Range-restricted tf on views, phrases with adjacent repeats and element access are proved further down
+   (C06_ranged_*, C06_*_any*, C06_element_access). *)
 Example C06_unsorted_duplicate_negative_keys :
   let docs := [[1;2;1;3];[];[2];[1;1;2];[3;1]] in
   match index false 100 docs with
